@@ -68,6 +68,7 @@ fn directed_cfg(k: u64) -> (WorldCfg, Value) {
 fn run_history(seed: u64, index: u64, mode_c12: bool, steps: u64) -> (drive::Obs, Vec<Value>, BTreeMap<String, u64>, Value) {
     let hist_id = format!("seed={seed} index={index}");
     if let Ok(mut v) = world::SERVICE_PANICS.lock() { v.clear(); }
+    world::C11_SITUATION.store(false, std::sync::atomic::Ordering::SeqCst);
     if (DIRECTED..LEGACY).contains(&index) {
         let k = index - DIRECTED;
         let mut rng = Rng::new(seed ^ index.wrapping_mul(0x9E37_79B9_7F4A_7C15));
@@ -203,7 +204,14 @@ fn main() {
             }
             Err(p) => {
                 let msg = p.downcast_ref::<String>().cloned().or_else(|| p.downcast_ref::<&str>().map(|s| s.to_string())).unwrap_or_default();
-                viol.push(json!({"what": "panic while driving the node", "detail": msg, "history_id": format!("seed={sd} index={i}")}));
+                // the selector / pool map of the node's own pool panicked under a call the harness made on its own thread
+                // (verif_package_txs runs TxPool::package_txs inside block_on): the same recorded consequences of C11's
+                // defects as when the service's task hits them
+                let mut v = json!({"what": "panic while driving the node", "detail": msg, "history_id": format!("seed={sd} index={i}")});
+                if !world::c11_situation() {}
+                else if msg.contains("inconsistent pool") { v["signature"] = json!("pool-service-panicked-inconsistent-pool"); }
+                else if msg == "invalid key" { v["signature"] = json!("pool-service-panicked-invalid-key"); }
+                viol.push(v);
             }
         }
         clean_scratch(&scratch);
